@@ -516,7 +516,8 @@ def codegen_sqrt(x):
         cp = f'({str(a.e)}**0.5)'
     else:
         normS = (a * a - bI * bI).e
-        cp = f'(0.5 * ({str(a.e)} + {str(normS)}**0.5)) ** 0.5'
+        # normS is a sum: its text needs brackets of its own (str of a sympy expression has none).
+        cp = f'(0.5 * ({str(a.e)} + ({str(normS)})**0.5)) ** 0.5'
     c = alg.scalar(name='c')
     c2_inv = alg.scalar(name='c2_inv')
     dI = bI * c2_inv
